@@ -81,11 +81,18 @@ CHECKS = {
     },
     "C20": {
         "units": ["dateroll"],
+        "extra": "cases_engine",
+        "cases": [
+            {"case": "d3", "where": "rust/calendars/calendar.rs", "what": "NamedCal::from_json of a valid document whose name was altered to an unknown calendar"},
+            {"case": "d4", "where": "rust/fx/rates/mod.rs", "what": "FXRates::from_json of a valid document with the quote list emptied / the currency list emptied / a quote duplicated"},
+            {"case": "d6", "where": "rust/dual/linalg/linalg_dual.rs", "what": "PPSpline::csolve with a NaN site and with a NaN datum"},
+        ],
         "kani": {"quick": ["chrono_view_is_days_from_civil", "chrono_from_ymd_validity"], "thorough": ["chrono_view_is_days_from_civil", "chrono_from_ymd_validity", "chrono_add_days", "chrono_sub_days"]},
         "level": "proof",
         "assumptions": CHRONO_ASSUMPTIONS,
         "uncovered": [
-            "JSON text handling (serde_json), Ccy::try_new (global interner), NamedCal::try_new string handling: outside both verifiers' reach (DESIGN.md §7 C20)",
+            "JSON loading in general (serde derive expansions + serde_json) is outside both verifiers' reach: only the three replayed inputs of the genuine defects found there (cases d3, d4: rebuild-on-load data models; d6: NaN in the spline solve) are re-run on every check, as single-input bounded stand-ins",
+            "Ccy::try_new (global interner): not under contract; NamedCal::try_new is under contract in C06, PPSpline::csolve in C15, FXRates::try_new in C09/C10",
         ],
     },
     "C17": {
